@@ -21,6 +21,10 @@ declare -A CH=(
  [C18-m1]="C18" [C18-m2]="C18"
  [C01-m3]="C01 C05" [C01-m4]="C03 C01" [C02-m3]="C02" [C02-m4]="C02" [C03-m3]="C03" [C03-m4]="C03 C04"
  [C05-m3]="C05" [C05-m4]="C05 C03" [C07-m3]="C07" [C07-m4]="C07" [C08-m3]="C08" [C08-m4]="C08"
+ [C04-m3]="C04" [C04-m4]="C04 C05" [C06-m3]="C06" [C06-m4]="C06 C04" [C09-m3]="C09" [C09-m4]="C09"
+ [C10-m3]="C10" [C10-m4]="C10" [C12-m3]="C12" [C12-m4]="C12" [C13-m3]="C13" [C13-m4]="C13"
+ [C11-m3]="C11" [C11-m4]="C11" [C14-m3]="C14" [C14-m4]="C14" [C15-m3]="C15" [C15-m4]="C15"
+ [C16-m3]="C16" [C16-m4]="C16 C08" [C17-m3]="C17 C04" [C17-m4]="C17 C05" [C18-m3]="C18" [C18-m4]="C18"
  [FIX-c774c1e]="C17 C05" [FIX-226f2f3]="C10 C01" [FIX-43f202f]="C05 C04" [FIX-9b7b0f8]="C03 C04"
  [FIX-d87b890]="C14" [FIX-e822f71]="C14" [FIX-eeb7108]="C14" [FIX-711dc21]="C14"
  [FIX-7f0734b]="C10 C01" [FIX-23c75cf]="C10 C01"
